@@ -217,7 +217,7 @@ func fieldChoices(field string, ids []string) int {
 	case "places":
 		return len(qPlaceSets)
 	case "boss":
-		return len(ids) + 1
+		return len(ids) + 2
 	}
 	return len(qDomains[field])
 }
@@ -231,6 +231,9 @@ func applyChoice(e *rm.Ent, field string, c int, ids []string) {
 	case "boss":
 		if c == 0 {
 			e.Fk["boss"] = nil
+		} else if c == len(ids)+1 {
+			empty := "" // a reference that is the empty string, not null: it leads nowhere
+			e.Fk["boss"] = &empty
 		} else {
 			b := ids[c-1]
 			e.Fk["boss"] = &b
